@@ -48,7 +48,8 @@ def gen_history(g, max_ops, max_depth=5):
         if op == 'text': ops.append(dict(op='text', h=p, t=g.choice(TXT))); h['n'] += 1
         elif op == 'field': ops.append(dict(op='field', h=p, n=g.choice(['Author', 'type x', 'param é']), t=g.choice(ONE))); h['n'] += 1
         elif op in ('bl', 'el'):
-            ops.append(dict(op=op, h=p, items=[g.choice(ONE) for _ in range(g.randint(0, 3))])); h['n'] += 1
+            n_items = g.randint(0, 3) if g.random() < 0.85 else g.randint(9, 13)     # long lists: two-digit enumerators
+            ops.append(dict(op=op, h=p, items=[g.choice(ONE) for _ in range(n_items)])); h['n'] += 1
         elif op == 'dir':
             if len(p) < max_depth:
                 ops.append(dict(op='dir', h=p, name=g.choice(NAMES), args=[g.choice(['a', 'f(x y)', '', 'é']) for _ in range(g.randint(0, 2))]))
